@@ -7,6 +7,7 @@ import (
 	"strings"
 	"time"
 
+	"github.com/mimecast/dtail/internal/config"
 	"github.com/mimecast/dtail/internal/io/fs"
 	"github.com/mimecast/dtail/internal/io/line"
 	"github.com/mimecast/dtail/internal/lcontext"
@@ -38,6 +39,8 @@ type c04Params struct {
 	// Second: a second followed file whose reader delivers into the SAME queue (all files of a session share one);
 	// the writer appends Second[i] to it right after Chunks[i]
 	Second []string
+	// M > 0: the server's MaxLineLength (lines longer than M are delivered in pieces of M bytes, each a line of its own)
+	M int
 }
 
 func (p c04Params) String() string {
@@ -47,6 +50,9 @@ func (p c04Params) String() string {
 	s := fmt.Sprintf("initial=%q chunks=%q regex=%q cap=%d late=%v pause=%v middrain=%d", p.Initial, p.Chunks, p.Regex, p.Cap, p.Late, p.Pause, p.MidDrain)
 	if len(p.Second) > 0 {
 		s += fmt.Sprintf(" second-file-chunks=%q", p.Second)
+	}
+	if p.M > 0 {
+		s += fmt.Sprintf(" maxlinelength=%d", p.M)
 	}
 	return s
 }
@@ -67,7 +73,11 @@ func c04Scenario(p c04Params, idx int) *explore.Scenario {
 			args := DefaultArgs()
 			args.Logger = "none"
 			args.LogLevel = "error"
-			StartEnv(source.Server, &args, nil)
+			StartEnv(source.Server, &args, func() {
+				if p.M > 0 {
+					config.Server.MaxLineLength = p.M
+				}
+			})
 			if err := os.WriteFile(path, []byte(p.Initial), 0o644); err != nil {
 				panic(err)
 			}
@@ -293,6 +303,24 @@ func c04Oracle(p c04Params, got []c04Line, x int64, othersOffered int) (string, 
 		}
 		want = append(want, rest[:i+1])
 		rest = rest[i+1:]
+	}
+	if p.M > 0 && fragment != "" {
+		// (the follow began inside a line the writer had half written: the pieces of its remainder are not judged in
+		// the over-long-line scenarios; the schedules in which the follow begins first are)
+		return fmt.Sprintf("x=%d began inside a line", x), ""
+	}
+	if p.M > 0 {
+		// the statement's only permitted difference: a line break after every M-th byte of an over-long line, i.e. the
+		// line arrives as consecutive pieces, every byte kept
+		var pieces []string
+		for _, l := range want {
+			for _, pc := range strings.SplitAfter(string(c01Split([]byte(l), p.M)), "\n") {
+				if pc != "" {
+					pieces = append(pieces, pc)
+				}
+			}
+		}
+		want = pieces
 	}
 	selected := func(l string) bool {
 		return p.Regex == "" || strings.Contains(strings.TrimSuffix(l, "\n"), p.Regex)
@@ -655,6 +683,18 @@ func c04ParamSets(tier string) (ps []c04Params, d int) {
 			}
 		}
 	}
+	// lines longer than MaxLineLength (2, 3 bytes) whose split position falls on a character boundary or inside a
+	// multi-byte character: the pieces carry exactly the appended bytes
+	for _, t := range []string{"aé\n", "éé\n", "ééa\nbb\n", "abc\né\n", "aaaa\n"} {
+		for _, chunks := range c04Compositions(t, 2) {
+			if tier != "thorough" && len(chunks) == 2 && len(chunks[0])%2 == 0 {
+				continue
+			}
+			for _, m := range []int{2, 3} {
+				ps = append(ps, c04Params{Initial: "old\n", Chunks: chunks, Cap: 100, M: m})
+			}
+		}
+	}
 	// two followed files deliver into one queue of capacity 1 (the consumer drains once in the middle and at the end)
 	ps = append(ps, c04Params{Initial: "old\n", Chunks: []string{"a\n", "bb\n"}, Second: []string{"x\n", "y\n"}, Cap: 1, Late: true, MidDrain: 1},
 		c04Params{Initial: "old\n", Chunks: []string{"a\nbb\n", "c\n"}, Second: []string{"x\n", "y\nz\n"}, Cap: 2, Late: true, MidDrain: 1},
@@ -683,7 +723,7 @@ func init() {
 		Level: "model_checking",
 		Rule: "stateless exploration of all schedules within a deviation bound of the real TailFile reader following a real file while a writer goroutine appends and a consumer receives: appended text of 1-3 lines over {a, bb, é} " +
 			"in every composition into <=2 (quick) / <=3 (thorough) write() calls (splits inside a line and inside the 2-byte character), initial content empty or 'old\\n', filter regex none/'a', delivery queue capacity 100 with an eager consumer or 1 with a consumer that only " +
-			"receives at the end, optional 150 ms writer pause; two followed files delivering into one shared queue (capacity 1, 2, 100); a whole tail session whose file is rotated (truncated in place / renamed and re-created) 1, 5 or 7 s into the follow, lines appended 8 s later; one follow across 12 rotations; a 12 s follow without rotation (a line every 700 ms) of the file itself, of a symbolic link to it, of a chain of two links and of a relative link; plus (canonical schedule) histories of 30..450 delivered lines followed by 1 or 3 lines dropped at a stopped consumer (capacity 4 and 100); file opens, reads and writes are scheduling points; oracle against the offset at which the follow began (observed at its Seek): delivered lines are exactly / a subsequence of the complete " +
+			"receives at the end, optional 150 ms writer pause; lines longer than a MaxLineLength of 2 or 3 bytes whose split position falls inside a multi-byte character (the pieces carry exactly the appended bytes); two followed files delivering into one shared queue (capacity 1, 2, 100); a whole tail session whose file is rotated (truncated in place / renamed and re-created) 1, 5 or 7 s into the follow, lines appended 8 s later; one follow across 12 rotations; a 12 s follow without rotation (a line every 700 ms) of the file itself, of a symbolic link to it, of a chain of two links and of a relative link; plus (canonical schedule) histories of 30..450 delivered lines followed by 1 or 3 lines dropped at a stopped consumer (capacity 4 and 100); file opens, reads and writes are scheduling points; oracle against the offset at which the follow began (observed at its Seek): delivered lines are exactly / a subsequence of the complete " +
 			"lines appended after that offset, unmodified and in order, nothing older, a gap only with a full queue and then the next delivered line has TransmittedPerc < 100",
 		Assumptions: []string{
 			"truncation and rotation of the followed file only in the dedicated rotation scenarios, whose oracle is limited to lines appended 8 s or more after the rotation (the follower notices a rotation at its next 3 s check and re-opens 2 s later; lines appended in between are outside the statement)",
